@@ -31,6 +31,10 @@ MCAlt3 == [A |-> [thr |-> 1, items |-> [a |-> 2]]]
 MCRemap3 == [a |-> "b", b |-> "c", c |-> None]
 MCRemap2 == [a |-> "b", b |-> None]
 MCRemap1 == [b |-> None]
+\* where a user slot may panic while a request is served (Points)
+MCPoints0 == {"none"}
+MCPointsAll == {"none", "chk", "sb", "sa", "cb", "ca"}
+MCPointsStat == {"none", "sb", "sa", "cb"}
 
 Emit == PrintT(ToJson(h'))
 
